@@ -179,16 +179,14 @@ impl Literal {
             {
                 if let Some(struct_def) = checked.struct_defs.get(struct_name1) {
                     if struct_def.fields.len() == fields.len() {
-                        let mut struct_def_fields = HashMap::with_capacity(fields.len());
-                        for (field_name, field_type) in struct_def.fields.iter() {
-                            struct_def_fields.insert(field_name, field_type);
-                        }
-                        for (field_name, field_literal) in fields.iter() {
-                            if let Some(expected_type) = struct_def_fields.get(field_name) {
-                                if !field_literal.is_of_type(checked, expected_type) {
-                                    return false;
-                                }
-                            } else {
+                        // the fields are encoded in the order in which they are given, which must
+                        // therefore be the order of the definition (each field exactly once)
+                        for ((def_name, def_type), (field_name, field_literal)) in
+                            struct_def.fields.iter().zip(fields.iter())
+                        {
+                            if def_name != field_name
+                                || !field_literal.is_of_type(checked, def_type)
+                            {
                                 return false;
                             }
                         }
